@@ -253,7 +253,7 @@ def _worker_run(args):
 
 
 def run_impl_cases(modname: str, cases: list, workers: int | None = None, chunksize=8):
-    workers = workers or min(16, os.cpu_count() or 4)
+    workers = workers or int(os.environ.get("PWH_WORKERS", 0)) or min(16, os.cpu_count() or 4)
     if len(cases) <= 4 or workers == 1:
         _worker_init()
         return [_worker_run((modname, c)) for c in cases]
